@@ -263,6 +263,13 @@ def single_assignment_locals(fn):
             l = strip(n["ch"][0])
             if l is not None and l.get("k") == "DeclRefExpr" and l.get("did") in inits:
                 dirty.add(l["did"])
+    for n in fn.nodes():
+        # receivers of non-const member calls are mutated objects, not values
+        if n.get("k") == "CXXMemberCallExpr" and not str(n.get("callee", "")).endswith(" const"):
+            o = call_object(n)
+            o = strip(o) if o is not None else None
+            if o is not None and o.get("k") == "DeclRefExpr" and o.get("did") in inits and not str(o.get("t", "")).rstrip().endswith("*"):
+                dirty.add(o["did"])
     return {d: e for d, e in inits.items() if d not in dirty}
 
 
@@ -274,7 +281,9 @@ def norm(n, locals_map=None, depth=0):
     n = strip_casts(n)
     k = n.get("k")
     if k == "DeclRefExpr" and locals_map and n.get("did") in locals_map and depth < 8:
-        return norm(locals_map[n["did"]], locals_map, depth + 1)
+        ini = strip_casts(locals_map[n["did"]])
+        if not (ini is not None and ini.get("k") in ("CXXConstructExpr", "CXXTemporaryObjectExpr") and not ini.get("ch")):
+            return norm(locals_map[n["did"]], locals_map, depth + 1)
     if k in ("IntegerLiteral",):
         return str(n.get("v"))
     if k == "FloatingLiteral":
@@ -323,7 +332,8 @@ def norm(n, locals_map=None, depth=0):
         return "%s(%s)" % (norm(ch[0], locals_map, depth) if ch else "?", ", ".join(norm(c, locals_map, depth) for c in ch[1:]))
     if k == "CallExpr":
         ch = n.get("ch", [])
-        return "%s(%s)" % (str(n.get("cname", "?")), ", ".join(norm(c, locals_map, depth) for c in ch[1:]))
+        callee = str(n["cname"]) if "cname" in n else (norm(ch[0], locals_map, depth) if ch else "?")
+        return "%s(%s)" % (callee, ", ".join(norm(c, locals_map, depth) for c in ch[1:]))
     if k in ("CXXConstructExpr", "CXXTemporaryObjectExpr"):
         ch = n.get("ch", [])
         if len(ch) == 1 and (n.get("copy") or n.get("elidable")):
